@@ -91,6 +91,24 @@ def gen_rx(seed, opts=None):
         ias.append(ia)
     plan['interactions'] = ias
     plan['horizon'] = 20.0
+    if rng.random() < 0.25:
+        # adapter on the requester side only: a core-API handler answers (elements may carry the complete flag)
+        plan['server_api'] = 'core'
+        for ia in ias:
+            if ia.pop('client_api', None) and ia.get('pub'):
+                ia['pub'].pop('src', None)
+                ia['pub'].pop('end', None)
+            if ia['kind'] == 'rr':
+                if ia['resp']['mode'] == 'empty':
+                    ia['resp']['mode'] = 'value'
+            for key in ('resp',):
+                sc = ia.get(key)
+                if sc and 'count' in sc:
+                    sc['src'] = _pick(rng, [(2, 'manual'), (2, 'gen'), (1, 'agen')])
+                    sc['end'] = _pick(rng, [(1, 'flag'), (1, 'separate')])
+                    sc['kind'] = 'core'
+            if ia['kind'] == 'channel':
+                ia['resp_limit_core'] = ia.get('resp_limit', MAXN)
     return plan
 
 
@@ -245,7 +263,23 @@ def _run(world, plan):
 
     def boot():
         ct, st, pump = make_transports(world, plan, link)
-        server = RSocketServer(st, handler_factory=N['factory'](Delegate),
+        if plan.get('server_api') == 'core':
+            core_scripts = {}
+            for ia in plan['interactions']:
+                sc = {'id': ia['id'], 'kind': ia['kind'], 'by': 'client'}
+                if ia['kind'] == 'rr':
+                    sc['resp'] = {'mode': 'now' if ia['resp']['mode'] == 'value' else 'fail', 'dlen': ia['resp']['dlen'], 'mlen': None}
+                elif ia['kind'] in ('stream', 'channel'):
+                    sc['resp'] = dict(ia['resp']) if ia.get('resp') else {}
+                    if ia['kind'] == 'channel' and ia.get('resp_observer'):
+                        lim = ia.get('resp_limit_core', MAXN)
+                        sc['resp']['sub'] = {'initial_n': lim, 'refill': [lim]}
+                core_scripts[ia['id']] = sc
+            Hc = app.handler_class()
+            server_factory = lambda: Hc(world, 'server', core_scripts, None)
+        else:
+            server_factory = N['factory'](Delegate)
+        server = RSocketServer(st, handler_factory=server_factory,
                                fragment_size_bytes=plan['server'].get('fragment'),
                                keep_alive_period=timedelta(seconds=1000), max_lifetime_period=timedelta(seconds=10000))
         world.tap_endpoint('server', server)
@@ -375,8 +409,9 @@ def oracle_c20(world):
             if t:
                 sid_of.setdefault(int(t.group(1)), e['f']['sid'])
     # setup reaches the delegate
+    core_server = plan.get('server_api') == 'core'
     setups = [e for e in hb if e['k'] == 'hnd' and e['method'] == 'on_setup']
-    if len(setups) != 1:
+    if len(setups) != 1 and not core_server:
         V('delegate_not_reached', 'on_setup reached the delegate %d times' % len(setups), None, method='on_setup', version=ver)
     for ia in plan['interactions']:
         iid, kind = ia['id'], ia['kind']
@@ -387,6 +422,8 @@ def oracle_c20(world):
         cancel = next((e for e in hb if e['k'] == 'act' and e.get('what') == 'cancel' and e.get('iid') == iid), None)
         if kind in ('fnf', 'push'):
             method = 'request_fire_and_forget' if kind == 'fnf' else 'on_metadata_push'
+            if core_server and kind == 'push':
+                continue  # the core recording handler does not attribute metadata-push to an interaction
             got = [e for e in hb if e['k'] == 'hnd' and e['method'] == method and e.get('iid') == iid]
             if len(got) != 1:
                 V('delegate_not_reached', '%s of interaction %d reached the delegate %d times' % (method, iid, len(got)),
@@ -494,7 +531,7 @@ def oracle_c20(world):
                       % (iid, sent, credit), e['seq'], src=(ia.get('resp') or {}).get('kind'), **facts)
                     break
         # back-pressure factory is asked for exactly the credited amounts
-        if (ia.get('resp') or {}).get('kind') == 'bp':
+        if (ia.get('resp') or {}).get('kind') == 'bp' and not core_server:
             asked = [e['n'] for e in hb if e['k'] == 'pub' and e.get('iid') == iid and e['role'] == 'responder' and e['cb'] == 'request']
             granted = [e['f']['n'] for e in hb if e['k'] == 'rx' and e['ep'] == 'server' and e['f']['sid'] == sid
                        and e['f']['type'] in ('REQUEST_STREAM', 'REQUEST_CHANNEL', 'REQUEST_N') and e['f'].get('n') is not None
@@ -509,7 +546,7 @@ def oracle_c20(world):
             # dispose() cancels an asyncio task; the CANCEL frame is produced when that task next runs.
             # A terminal frame pulled by the client in between legitimately makes the CANCEL unnecessary.
             raced = any(e for e in hb if e['k'] == 'rx' and e['ep'] == 'client' and e['f']['sid'] == sid
-                        and e['seq'] > cancel['seq'] and e['it'] <= cancel['it'] + 2
+                        and cancel['it'] <= e['it'] <= cancel['it'] + 2  # incl. the very frame being delivered
                         and (e['f']['type'] == 'ERROR' or (e['f']['type'] == 'PAYLOAD' and e['f'].get('complete') and not e['f'].get('follows'))))
             if len(cf) > 1 or (len(cf) == 0 and not raced):
                 V('dispose_did_not_cancel', 'interaction %d: disposing the result observable produced %d CANCEL frames' % (iid, len(cf)),
